@@ -115,6 +115,8 @@ func buildReport(eng *Engine, prop, tier string, seed int, pc *PropCfg, frs []*F
 			default:
 				if r.baseline[o.Name] || (o.Top && !r.slow[o.Name]) {
 					r.failed = append(r.failed, &failure{o: o, fr: fr, reason: "no longer discharged (" + o.Status + ")"})
+				} else if r.slow[o.Name] && o.LongTried {
+					r.failed = append(r.failed, &failure{o: o, fr: fr, reason: "no longer discharged (" + o.Status + " after a 900 s attempt run alone; it discharged within about a minute on the unchanged tree)"})
 				} else {
 					r.undecided = append(r.undecided, o)
 				}
